@@ -565,6 +565,17 @@ TRACE_CONSTS = {"Workers": '{"w1"}', "MaxCrashes": 0, "MaxRollbacks": 0, "MaxFor
                 "Defect_NoTaskCancelEvent": "TRUE"}
 
 
+def trace_consts() -> dict:
+    """As the code is: all three named defects present.  To validate a tree in which some are repaired
+    (docs/proposed_fixes/C12.diff, C13.diff) list the remaining ones in VERIF_EVENTS_DEFECTS, e.g. ""."""
+    left = os.environ.get("VERIF_EVENTS_DEFECTS", "skip,errpath,taskcancel").split(",")
+    c = dict(TRACE_CONSTS)
+    c["Defect_SkipEventBeforeCommit"] = "TRUE" if "skip" in left else "FALSE"
+    c["Defect_ErrorPathNoEvent"] = "TRUE" if "errpath" in left else "FALSE"
+    c["Defect_NoTaskCancelEvent"] = "TRUE" if "taskcancel" in left else "FALSE"
+    return c
+
+
 def cfg_consts(c: dict) -> str:
     return "CONSTANTS\n" + "".join(f"  {k} = {v}\n" for k, v in c.items())
 
@@ -602,7 +613,7 @@ def validate_batch(traces: list[dict], props: list[str], tag: str = "ev", timeou
         tf = os.path.join(rd, "traces.json")
         with open(tf, "w") as fh:
             json.dump({"props": list(props), "traces": [{"events": t["events"]} for t in traces]}, fh)
-        cfg = cfg_consts(TRACE_CONSTS) + "INIT TraceInit\nNEXT TraceNext\nCONSTRAINT Progress\nPOSTCONDITION Accepted\n" \
+        cfg = cfg_consts(trace_consts()) + "INIT TraceInit\nNEXT TraceNext\nCONSTRAINT Progress\nPOSTCONDITION Accepted\n" \
                                          "CHECK_DEADLOCK FALSE\n"
         r = tlc.run_tlc(rd, "Trace_Events", cfg, workers=1, env={"TRACE_FILE": tf}, timeout=timeout)
         v.wall = r.wall
@@ -840,7 +851,7 @@ def trace_jobs(pid: str, tier: str, seed: int, refs: dict[str, dict], core_: lis
     jobs: list[dict] = []
     thorough = tier == "thorough"
     if pid == "C12":
-        nsched = 40 if thorough else 10
+        nsched = 60 if thorough else 16
         for p in core_ + extra_:
             obs = {"prefixes": True, "snapshots": "all" if thorough else "some", "seed": seed}
             seeds = [rng.randrange(1, 10 ** 6) for _ in range(nsched)]
@@ -857,8 +868,11 @@ def trace_jobs(pid: str, tier: str, seed: int, refs: dict[str, dict], core_: lis
     for p in core_ + ([q for q in extra_ if q["name"] in ("disabled", "termmid", "stopped")] if not thorough else extra_):
         m = refs[p["name"]]["meta"]
         pts = list(range(1, m["commits"] + 1))
-        if not thorough and p["name"] not in ("disabled",):
-            pts = [k for k in pts if k % 2 == seed % 2] if len(pts) > 80 else pts
+        if not thorough:
+            # quick: every commit made inside a handler, every 3rd of the pure stutters between handlers
+            # (poll / post-mark / ack: neither statuses nor the events table change); thorough: every commit
+            inside = {e["n"] for e in refs[p["name"]]["events"] if e["e"] == "commit"}
+            pts = [k for k in pts if k in inside or k % 3 == seed % 3]
         for grp in chunks(pts, 10):
             jobs.append({"kind": "fifo", "prog": p, "faults": [{"crash_at": k} for k in grp]})
         for grp in chunks(range(1, m["appends"] + 1), 10):
@@ -928,6 +942,30 @@ def flag_and_revalidate(traces: list[dict], rejected: list[tuple[int, int]], pro
     return extra
 
 
+def corruptions(trace: dict) -> list[tuple[str, dict]]:
+    """Binding self-test (DESIGN 4.4): three corrupted copies of an accepted execution; TLC must reject each."""
+    out = []
+    evs = trace["events"]
+    ci = next(i for i, e in enumerate(evs) if e["e"] == "commit" and e.get("h") == "CompleteTask" and e["nev"])
+    # 1. the completion commit logs the task still RUNNING (status and event no longer agree)
+    t = json.loads(json.dumps(trace))
+    ent = t["events"][ci]["nev"][0]["ent"]
+    t["events"][ci]["x"]["tk"][ent] = "RUNNING"
+    out.append(("status-flipped", t))
+    # 2. the completion event is missing from the commit that completes the task
+    t = json.loads(json.dumps(trace))
+    t["events"][ci]["nev"] = []
+    t["events"][ci]["evn"] -= 1
+    out.append(("event-dropped", t))
+    # 3. the subscriber saw the completion event BEFORE its transaction committed
+    t = json.loads(json.dumps(trace))
+    pi = next(i for i in range(ci, len(evs)) if evs[i]["e"] == "pub")
+    pub = t["events"].pop(pi)
+    t["events"].insert(ci, pub)
+    out.append(("published-before-commit", t))
+    return out
+
+
 def brief_event(e: dict | None) -> Any:
     if not e:
         return None
@@ -955,9 +993,23 @@ def run(pid: str, tier: str, seed: int) -> int:   # noqa: C901
     traces = ref_traces + run_jobs(jobs)
     gen_wall = time.time() - t_gen
 
+    # ---- binding self-test: corrupted copies of an accepted execution must be rejected by TLC ---------------
+    base = next(t for t in ref_traces if t["prog"] == "chain2")
+    cor = corruptions(base)
+    cv = validate_batch([base] + [c for _, c in cor], props, tag="selftest")
+    selftest = {"base_accepted": False, "rejected": {}}
+    if cv.machinery:
+        rep.machinery_failure("binding self-test: " + cv.machinery[-1500:])
+    else:
+        rej = {r["trace"] for r in cv.rejected}
+        selftest["base_accepted"] = 0 not in rej
+        selftest["rejected"] = {name: (i + 1) in rej for i, (name, _) in enumerate(cor)}
+        if 0 in rej or not all(selftest["rejected"].values()):
+            rep.machinery_failure(f"binding self-test failed: {selftest}")
+
     # ---- (c) TLC validates every recorded execution against Events.tla --------------------------------------
     t_val = time.time()
-    res = validate_all(traces, props, batch=30 if tier == "quick" else 60, par=8)
+    res = validate_all(traces, props, batch=30 if tier == "quick" else 60, par=10)
     val_wall = time.time() - t_val
     n_acc = n_events = n_states = 0
     failed: list[dict] = []
@@ -985,12 +1037,13 @@ def run(pid: str, tier: str, seed: int) -> int:   # noqa: C901
     for ti, at in rejected:
         t = traces[ti]
         ev = t["events"][at - 1] if at - 1 < len(t["events"]) else None
-        key = ("CONFORMANCE", t["prog"], t["meta"]["kind"], (ev or {}).get("e"), (ev or {}).get("h"))
-        g = groups.setdefault(key, {"n": 0, "first": (ti, at)})
+        key = ("CONFORMANCE", (ev or {}).get("e"), (ev or {}).get("h"))
+        g = groups.setdefault(key, {"n": 0, "first": (ti, at), "all": []})
         g["n"] += 1
+        g["all"].append((ti, at))
     for f in failed:
         t = traces[f["trace"]]
-        key = (f["formula"], t["prog"], t["meta"]["kind"], json.dumps(sorted((t["meta"].get("faults") or {}).keys())))
+        key = (f["formula"],)
         g = groups.setdefault(key, {"n": 0, "first": (f["trace"], f["at"]), "all": []})
         g["n"] += 1
         g.setdefault("all", []).append((f["trace"], f["at"]))
@@ -1014,7 +1067,8 @@ def run(pid: str, tier: str, seed: int) -> int:   # noqa: C901
         if unmatched:
             n_viol_traces += len(unmatched)
             v0 = unmatched[0]
-            v0["what"] = f"[{len(unmatched)} recorded executions] " + v0["what"]
+            progs = sorted({u["replay"]["program"]["name"] for u in unmatched})
+            v0["what"] = f"[{len(unmatched)} recorded executions, programs {', '.join(progs[:12])}] " + v0["what"]
             rep.violations.append(v0)
 
     # ---- model-checking results ------------------------------------------------------------------------------
@@ -1109,6 +1163,7 @@ def run(pid: str, tier: str, seed: int) -> int:   # noqa: C901
         "programs": sorted(by),
         "excluded_programs": sorted(EXCLUDED),
         "known_findings_seen": rep.known_hits,
+        "binding_selftest": selftest,
         "wall": {"generation_s": round(gen_wall, 1), "validation_s": round(val_wall, 1)},
         "samples": samples,
     }
